@@ -212,4 +212,65 @@ example :
     (runSplitBare true fs ⟨⟨[1, 2, 3, 4, 5], none⟩, [.map 1 none], [], some 2, 99, false⟩ 0 false).end_ = .exhausted := by
   decide
 
+/-! ## `_contains_cache` finds a Cache at any depth -/
+
+/-- the tree holds a Cache somewhere: at the root, or in a child (of a Sequence/RunIf/tuple or of a Split) that
+holds one -/
+inductive HasCache : CTree → Prop where
+  | here : HasCache .cache
+  | inSeq {els : List CTree} {t : CTree} : t ∈ els → HasCache t → HasCache (.seq els)
+  | inSplit {seqs : List CTree} {t : CTree} : t ∈ seqs → HasCache t → HasCache (.split seqs)
+
+mutual
+theorem containsCache_sound : ∀ (t : CTree), containsCache t = true → HasCache t
+  | .cache, _ => .here
+  | .leaf, h => by simp [containsCache] at h
+  | .seq els, h => by
+    obtain ⟨t, ht, hc⟩ := anyCache_sound els (by simpa [containsCache] using h)
+    exact .inSeq ht hc
+  | .split seqs, h => by
+    obtain ⟨t, ht, hc⟩ := anyCache_sound seqs (by simpa [containsCache] using h)
+    exact .inSplit ht hc
+theorem anyCache_sound : ∀ (ts : List CTree), anyCache ts = true → ∃ t, t ∈ ts ∧ HasCache t
+  | [], h => by simp [anyCache] at h
+  | t :: r, h => by
+    simp only [anyCache, Bool.or_eq_true] at h
+    rcases h with h | h
+    · exact ⟨t, by simp, containsCache_sound t h⟩
+    · obtain ⟨t', ht', hc⟩ := anyCache_sound r h
+      exact ⟨t', by simp [ht'], hc⟩
+end
+
+theorem anyCache_of_mem : ∀ (ts : List CTree) (t : CTree), t ∈ ts → containsCache t = true → anyCache ts = true
+  | [], _, h, _ => by simp at h
+  | x :: r, t, h, hc => by
+    simp only [List.mem_cons] at h
+    simp only [anyCache, Bool.or_eq_true]
+    rcases h with rfl | h
+    · exact Or.inl hc
+    · exact Or.inr (anyCache_of_mem r t h hc)
+
+/-- **`_contains_cache` finds a Cache at any depth**, through any alternation of Sequences (RunIf, tuple members)
+and Splits — and reports one only if there is one -/
+theorem containsCache_complete (t : CTree) : containsCache t = true ↔ HasCache t := by
+  constructor
+  · exact containsCache_sound t
+  · intro h
+    induction h with
+    | here => rfl
+    | inSeq hm _ ih => simpa [containsCache] using anyCache_of_mem _ _ hm ih
+    | inSplit hm _ ih => simpa [containsCache] using anyCache_of_mem _ _ hm ih
+
+/-- so a member that holds a Cache anywhere makes `Split.__init__` read the whole flow at once -/
+theorem effBufsizeTree_none (bufsize : Option Nat) (members : List CTree) (t : CTree) (hm : t ∈ members)
+    (hc : HasCache t) : effBufsizeTree bufsize members = none := by
+  unfold effBufsizeTree
+  rw [anyCache_of_mem members t hm ((containsCache_complete t).mpr hc)]
+  cases bufsize <;> simp
+
+example : containsCache (.seq [.leaf, .split [.seq [.leaf], .seq [.split [.seq [.leaf, .cache]]]]]) = true := by decide
+example : containsCache (.seq [.leaf, .split [.seq [.leaf], .seq [.split [.seq [.leaf, .leaf]]]]]) = false := by decide
+example : HasCache (.seq [.leaf, .split [.seq [.cache]]]) :=
+  .inSeq (t := .split [.seq [.cache]]) (by simp) (.inSplit (t := .seq [.cache]) (by simp) (.inSeq (t := .cache) (by simp) .here))
+
 end Lena.C18
